@@ -31,9 +31,11 @@ from pathlib import Path
 sys.path.insert(0, str(Path(__file__).resolve().parent))
 import common as C
 import simlib as S
+import c11lib as L
 
 PID = "C11"
-TARGETS = ["Stats/SimStats.vo", "Stats/SimStatsProofs.vo", "Props/C11.vo"]
+# built in coq/ (independent of the source text); Gen_SimStats / SimGenAgree / Props/C11 are compiled per tree (c11lib.SimStatsTree)
+TARGETS = ["Stats/SimStats.vo", "Stats/SimStatsProofs.vo"]
 DRIVER = Path(__file__).resolve().parent / "c11_impl.py"
 KINDS = ["counter", "tally", "weighted", "persistent"]
 FAM = {"counter": "int", "tally": "num", "persistent": "num", "weighted": "pair"}
@@ -696,7 +698,10 @@ def shrink(case, pred, budget=150):
 # ----------------------------------------------------------------------------- main
 def main(tier: str) -> int:
     run = C.Run(PID, tier)
-    proofs_ok = run.check_proofs(TARGETS, extra_tb=[
+    tree = L.prepare(run)
+    if tree is None:
+        return run.finish()
+    proofs_ok = L.check_proofs(run, tree, TARGETS, extra_tb=[
         "simulator part: Sim/Model.v (pending set at specification level, worker thread executed synchronously, exact dyadic times); "
         "statistics part: the C09/C10 models executed in binary64 (Coq PrimFloat assumed to round like CPython float; re-validated bit for bit on every run)",
         "theorems are about the exact-rational instance of the same model text; rounding of the statistics is not reasoned about",
@@ -751,21 +756,68 @@ def main(tier: str) -> int:
         run.add_sample({"case": {k: c[k] for k in ("clock", "cmds", "stats")},
                         "impl": {"snaps": o.get("snaps"), "stats": [s and s["snap"] for s in o.get("stats", [])][:2]}})
 
-    for nsig, (sig, (i, (sg, what))) in enumerate(first_bad.items()):
-        def pred(cand, sg=sg):
-            try:
-                o2 = run_impl([cand], nproc=1)[0]
-                b, _ = oracle(cand, o2)
-            except Exception:
-                return False
-            return bool(b) and b[0] == sg
-        # shrink the first few findings only (each attempt is a fresh interpreter)
-        small = shrink(cases[i], pred) if (sg not in ("driver-error", "harness-note") and nsig < 2) else cases[i]
-        o2 = run_impl([small], nproc=1)[0]
-        b, _ = oracle(small, o2)
-        run.violation(sg.replace(":", "-"), (b or (sg, what))[1],
-                      {"case": small, "impl_observation": {k: o2.get(k) for k in ("snaps", "stats", "ntfs", "obs", "stderr", "error")},
-                       "how": "feed [case] as a JSON list on stdin to harness/c11_impl.py with PYTHONPATH=<repo>/src"})
+    def report_findings(first_bad, cases):
+        for nsig, (sig, (i, (sg, what))) in enumerate(first_bad.items()):
+            def pred(cand, sg=sg):
+                try:
+                    o2 = run_impl([cand], nproc=1)[0]
+                    b, _ = oracle(cand, o2)
+                except Exception:
+                    return False
+                return bool(b) and b[0] == sg
+            # shrink the first few findings only (each attempt is a fresh interpreter)
+            small = shrink(cases[i], pred) if (sg not in ("driver-error", "harness-note") and nsig < 2) else cases[i]
+            o2 = run_impl([small], nproc=1)[0]
+            b, _ = oracle(small, o2)
+            run.violation(sg.replace(":", "-"), (b or (sg, what))[1],
+                          {"case": small, "impl_observation": {k: o2.get(k) for k in ("snaps", "stats", "ntfs", "obs", "stderr", "error")},
+                           "how": "feed [case] as a JSON list on stdin to harness/c11_impl.py with PYTHONPATH=<repo>/src"})
+
+    def report_direct(found):
+        sg, what, dcase = found
+        run.violation(sg.replace(":", "-"), what,
+                      {"direct_case": dcase,
+                       "how": "harness/c11lib.run_direct(direct_case) with PYTHONPATH=<repo>/src: the operations are performed on an "
+                              "EventBased* object with a subscriber on the listed event indices that registers react[k] from inside its "
+                              "k-th notification"})
+
+    report_findings(first_bad, cases)
+
+    # ---- the EventBased* classes driven directly (the Sim* classes override their publishing methods)
+    rng_d = random.Random(run.seed * 2654435761 % (2 ** 31) + 17)
+    n_direct = 1500 if tier == "quick" else 30000
+    direct_found, n_direct_run = L.direct_batch(rng_d, n_direct)
+    run.cov["event_based_classes_driven_directly"] = n_direct_run
+    if direct_found:
+        report_direct(direct_found)
+
+    # ---- the regenerated model no longer equals the proved one: look harder for a concrete failing input
+    tie = tree.broken()
+    tie_extra = {}
+    if tie and not first_bad and not direct_found:
+        rng2 = random.Random(run.seed * 7919 + 1111)
+        n_extra = 1500 if tier == "quick" else 10000
+        extra = [gen_case(rng2, i) for i in range(n_extra)]
+        tie_extra["extra_cases_after_broken_tie"] = n_extra
+        try:
+            obs2 = run_impl(extra)
+        except Exception as exc:  # noqa
+            obs2 = []
+            tie_extra["extra_cases_error"] = f"{type(exc).__name__}: {exc}"[:300]
+        fb2 = {}
+        for i, (c, o) in enumerate(zip(extra, obs2)):
+            bad, _facts = oracle(c, o)
+            if bad and bad[0] not in fb2:
+                fb2[bad[0]] = (i, bad)
+        if fb2:
+            first_bad = dict(fb2)
+            report_findings(fb2, extra)
+        else:
+            direct_found, n2 = L.direct_batch(rng2, 20000 if tier == "quick" else 100000)
+            tie_extra["extra_direct_cases_after_broken_tie"] = n2
+            if direct_found:
+                report_direct(direct_found)
+    run.cov["second_tie_broken"] = bool(tie)
 
     codes, err = coq_compare(cases, obs)
     if err:
@@ -783,6 +835,9 @@ def main(tier: str) -> int:
                       f"correspondence {rel} no longer matches the implementation but no clause of C11 was found violated by the oracle",
                       {"case": cases[i], "impl_observation": {k: obs[i].get(k) for k in ("snaps", "stats", "ntfs", "obs")},
                        "model_view": coq_view(cases[i], obs[i]), "relation": rel}, found_input=False)
+    if tie and not first_bad and not direct_found:
+        tie_extra["model_impl_mismatching_cases"] = n_dis
+        L.report_broken_tie(run, tree, tie_extra)
     if not proofs_ok and not run.violations:
         run.violation("proof-broken", f"a {PID} proof obligation no longer checks: " + getattr(run, "proof_log", "")[-800:],
                       {"theorems": run.cov.get("theorems")}, found_input=False)
@@ -793,6 +848,13 @@ def replay(path: str) -> int:
     """Re-run the case stored in a replay file: implementation, oracle, model."""
     C.use_repo_sources()
     body = json.loads(Path(path).read_text())
+    if body.get("direct_case"):
+        f = L.run_direct(body["direct_case"])
+        print(f"oracle: {f}")
+        if f:
+            print(f"VIOLATION property={PID} replay={path}")
+            return 1
+        return 0
     case = body.get("case")
     if not case:
         print("replay file holds no case")
